@@ -39,7 +39,7 @@ func runC02(e *env) {
 		n, samples = 120, 40
 	}
 	for i := 0; i < n; i++ {
-		prof := profile{Unions: true, Structs: true, NamedBasics: true, Enums: true, Containers: true, Time: true, Embedded: false, TagsAll: false, ModShape: 0, SubPkg: true}
+		prof := profile{Unions: true, Structs: true, NamedBasics: true, Enums: true, Containers: true, Time: true, Embedded: false, TagsAll: false, TagsSafe: true, TagsOmitempty: true, IgnoreOnWire: true, SiblingMembers: true, ModShape: 0, SubPkg: true}
 		specs = append(specs, synthModule(e.r, prof, i))
 	}
 	obs := observeAll(specs, "gounions", 14)
